@@ -560,6 +560,9 @@ func run(c *hl.Ctx) {
 	c.Info("split_window", w)
 	depth := 2
 	rule := "E3 bounded-exhaustive. Family full: 4 header flag combinations x every tag sequence of length 0..2 over tag type {8,9,18,0,255} x timestamp {0,1,0xFFFFFF,0x1000000,0x7FFFFFFF,0x80000000,0xFFFFFFFF} x body size {0,1,255,256,65535,65536} (210 tags). "
+	if c.Quick() {
+		rule += "(Quick tier: two-tag sequences containing a body >= 65535 bytes take one of the four flag combinations each, rotating; all others take all four.) "
+	}
 	if c.Thorough() {
 		depth = 3
 		rule += "Family d3-small: every sequence of 3 tags over type x timestamp x size {0,1,255,256} (140^3), flags rotating, split window 16 above 160 bytes. Family d3-big: every sequence of 3 tags over type {8,9,255} x timestamp {1,0x1000000,0xFFFFFFFF} x all six sizes with at least one body >= 65535, flags rotating, split window 16. Family max-body: body of 2^24-1 bytes alone and next to a second tag. "
@@ -569,9 +572,16 @@ func run(c *hl.Ctx) {
 	c.Info("max_sequence_length", depth)
 
 	// family full: depth 0..2, flags innermost
+	rotFull := 0
 	for d := 0; d <= 2; d++ {
 		ok := seqs(full, d, nil, func(s []tagSpec) bool {
-			for _, fl := range flagCombos {
+			flags := flagCombos
+			if c.Quick() && d == 2 && (s[0].Size >= 65535 || s[1].Size >= 65535) {
+				// quick tier: a two-tag sequence with a 64 KiB body takes one flag combination (rotating), not all four
+				flags = flagCombos[rotFull%4 : rotFull%4+1]
+				rotFull++
+			}
+			for _, fl := range flags {
 				cs := &caseT{Family: "full", Video: fl[0], Audio: fl[1], Tags: append([]tagSpec(nil), s...), Window: w, AllBelow: 2048}
 				if !e.do(cs) {
 					return false
